@@ -6,7 +6,7 @@ from .common import bump
 ID = "C09"
 AREA = "c09"
 LEAN_PROPS = "Litep2pVerif.Props.C09"
-THEOREMS = ["held_not_closed", "idle_closed_at_partial", "ping_no_prolong", "primary_secondary",
+THEOREMS = ["held_not_closed", "idle_closed_at", "idle_run_closed_at", "poll_settles", "ping_no_prolong", "primary_secondary",
             "inbound_negotiation_holds_connection"]
 CONSTS = ["KEEP_ALIVE_TIMEOUT_SECS"]
 CONST_TABLE = [
@@ -16,8 +16,17 @@ CONST_TABLE = [
 MANIFEST = {
     "text": "Lean 4 theorems about an operational model of the keep-alive mechanism (ConnectionHandle Active/Inactive, "
             "Permit, KeepAliveTracker with lazily started timers, the multiset of strong senders of a connection's command "
-            "channel and the loop-exit rule): held_not_closed, idle_closed_at_partial (exact close time = max over protocols "
-            "of last activity + T, assuming every protocol is polled at that time), ping_no_prolong, primary_secondary, and on the "
+            "channel and the loop-exit rule): held_not_closed; idle_closed_at — over EVERY state reachable in the transition system "
+            "Sys.step (connection announced/closed, open_substream, command receipt, substream opened/failed/inbound/dropped, "
+            "message delivery, keep-alive poll, clock advance; invariant Reach.inv), under the explicit environment hypothesis "
+            "that the clock does not pass an unpolled or due sleep future: a protocol keeps its active handle exactly until its "
+            "poll at last_activity + T (never early: the only steps that take it away are its ConnectionClosed and its poll at "
+            ">= last_activity + T; never late: a holder always has now <= last_activity + T, strictly once polled), and with no "
+            "permit around the loop exits exactly then (for primary and secondary connections alike; 'at t0 + T' is stated for "
+            "the code as it is: the sleep starts at its first poll, which the hypothesis places at the push); idle_run_closed_at "
+            "(along any run of clock advances and polls from a reachable state without permits, ending with everybody polled: the "
+            "loop has exited iff every initial holder's last_activity + T has passed); poll_settles (after "
+            "a poll nothing blocks the clock); ping_no_prolong, primary_secondary, and on the "
             "connection task's side (Model/Conn/Permits.lean: the TcpConnection loop with every strong sender explicit) "
             "inbound_negotiation_holds_connection: the permit is taken when an inbound substream is accepted and stays with it "
             "through negotiation, delivery and the substream's life, disabling the idle exit. Tie: the REAL TcpConnection::start "
@@ -54,7 +63,10 @@ TRUSTED_BASE = ["Lean 4.33 kernel", "axioms: propext, Classical.choice, Quot.sou
                 "tcploop: quiescence detected through TCP_INFO byte counters and waker flags; select! branch choice sampled"]
 ASSUMPTIONS = ["connection ids are unique, so the tracker key (peer, connection) is represented by the connection id",
                "protocols poll their TransportService after calling open_substream (the protocol's event loop does); the "
-               "oracle checks the upper bound on the close time only on schedules where this holds"]
+               "oracle checks the upper bound on the close time only on schedules where this holds",
+               "idle_closed_at's environment hypothesis (guard of the advance step, timersSettled): the logical clock does not "
+               "advance while a protocol's tracker holds a pushed-but-unpolled sleep future nor past the deadline of a started "
+               "one (executor fairness: a task with a new or woken timer is polled); messages may wait in channels arbitrarily"]
 KEEP_PREFIX = 1
 PEERS = [1, 2]
 
